@@ -312,7 +312,25 @@ func TestC14Histories(t *testing.T) {
 			fmt.Sprintf("let %s = %d; T | where a > %s | take 3", fresh, rapid.IntRange(1, 9).Draw(rt, "freshval"), fresh),
 			fmt.Sprintf("T | where %s > 3 | project %s, b | take lim", fresh, fresh))
 		for i, n := 0, rapid.IntRange(2, 6).Draw(rt, "npool"); i < n; i++ {
-			switch rapid.IntRange(0, 8).Draw(rt, "srckind") {
+			switch rapid.IntRange(0, 10).Draw(rt, "srckind") {
+			case 9:
+				// many operators: any limit or table keyed by their number is the
+				// same whatever options value the call goes through
+				nops := rapid.SampledFrom([]int{15, 17, 33, 63, 64, 65, 66, 100, 129, 260}).Draw(rt, "nops")
+				var sb strings.Builder
+				sb.WriteString("T")
+				for j := 0; j < nops; j++ {
+					sb.WriteString(rapid.SampledFrom([]string{" | where a > 1", " | extend c = a + 1", " | take 5", " | project a, b, c = 1", " | summarize a = count() by b", " | sort by a"}).Draw(rt, "longop"))
+				}
+				pool = append(pool, sb.String())
+			case 10:
+				// deep nesting: several goroutines are inside deep expressions at once
+				depth := rapid.SampledFrom([]int{50, 120, 260, 400}).Draw(rt, "nestdepth")
+				if rapid.Bool().Draw(rt, "nestcalls") {
+					pool = append(pool, "T | where "+strings.Repeat("tolower(", depth)+"b"+strings.Repeat(")", depth)+" == 'x' | count")
+				} else {
+					pool = append(pool, "T | extend d = "+strings.Repeat("(1 + ", depth)+"a"+strings.Repeat(")", depth)+" | take 2")
+				}
 			case 7, 8:
 				// string literals with backslash escapes, a different one per source
 				word := rapid.StringMatching(`[a-z]{3,12}`).Draw(rt, "word")
